@@ -38,14 +38,18 @@ SECOND_ARG_KW_NAMES = ("dst", "target")
 
 
 @lru_cache(maxsize=8192)
-def _normalize_path_cached(path: str) -> str:
+def _normalize_path_cached(path: str, cwd: str | None = None) -> str:
     """Fast path normalization without resolving symlinks.
 
     Uses os.path.abspath + normpath which avoids extra filesystem lookups from
-    Path.resolve(). Caching avoids repeated allocations for hot paths.
+    Path.resolve(). Caching avoids repeated allocations for hot paths.  For relative
+    paths the working directory is part of the cache key: the same string names a
+    different file after ``os.chdir``.
     """
     try:
         # For performance, we avoid using Path here to prevent extra allocations.
+        if cwd is not None:
+            return os.path.normpath(os.path.join(cwd, path))  # noqa: PTH118
         return os.path.normpath(os.path.abspath(path))  # noqa: PTH100
     except Exception:  # noqa: BLE001
         return str(path)
@@ -73,7 +77,10 @@ class FilesystemIsolation(ContextDecorator):
     @staticmethod
     def _abspath(path: os.PathLike | str) -> str:
         """Convert a path to an absolute path."""
-        return _normalize_path_cached(str(path))
+        text = str(path)
+        if os.path.isabs(text):
+            return _normalize_path_cached(text)
+        return _normalize_path_cached(text, os.getcwd())  # noqa: PTH109
 
     def _record_created(self, *paths: os.PathLike | str | None) -> None:
         """Record newly created paths. Uses set.update for fewer allocations."""
